@@ -32,14 +32,14 @@ func runReuse(ly reLayer, full, old, start []byte, ops string) string {
 			cur = cur[:atoi(arg)]
 			tr += " v" + arg
 		case 's':
-			pl := lib.UnHex(arg)
+			pl := unhex(arg)
 			if ly.hdr+len(pl) <= cap(cur) {
 				copy(full[ly.hdr:], pl) // the caller writes the payload in place
 			}
 			cur = ly.set(cur, pl)
 			tr += fmt.Sprintf(" %d/%s", len(cur), ly.field(cur))
 		case 'a':
-			pl := lib.UnHex(arg)
+			pl := unhex(arg)
 			if pl == nil {
 				pl = []byte{}
 			}
@@ -59,7 +59,7 @@ func runRe4(a []string) string {
 	c, l, seed, ttl := atoi(a[0]), atoi(a[1]), uint64(atoi(a[2])), byte(atoi(a[3]))
 	proto := byte(atoi(a[6]))
 	buf, full, old := mkbuf(c, l, seed)
-	ip := packet.EncodeIP4(buf, ttl, addr(lib.UnHex(a[4])), addr(lib.UnHex(a[5])))
+	ip := packet.EncodeIP4(buf, ttl, addr(unhex(a[4])), addr(unhex(a[5])))
 	return runReuse(reLayer{20,
 		func(cur, pl []byte) []byte { return packet.IP4(cur).SetPayload(pl, proto) },
 		func(cur, pl []byte) ([]byte, error) { return packet.IP4(cur).AppendPayload(pl, proto) },
@@ -74,7 +74,7 @@ func runRe6(a []string) string {
 		return "fresh"
 	}
 	buf, full, old := mkbuf(c, l, seed)
-	ip := packet.EncodeIP6(buf, hop, addr(lib.UnHex(a[4])), addr(lib.UnHex(a[5])))
+	ip := packet.EncodeIP6(buf, hop, addr(unhex(a[4])), addr(unhex(a[5])))
 	return runReuse(reLayer{40,
 		func(cur, pl []byte) []byte { return packet.IP6(cur).SetPayload(pl, nh) },
 		func(cur, pl []byte) ([]byte, error) { return packet.IP6(cur).AppendPayload(pl, nh) },
@@ -99,7 +99,7 @@ func runReU(a []string) string {
 func runReE(a []string) string {
 	c, l, seed, ht := atoi(a[0]), atoi(a[1]), uint64(atoi(a[2])), uint16(atoi(a[3]))
 	buf, full, old := mkbuf(c, l, seed)
-	e := packet.EncodeEther(buf, ht, net.HardwareAddr(marg(lib.UnHex(a[4]))), net.HardwareAddr(marg(lib.UnHex(a[5]))))
+	e := packet.EncodeEther(buf, ht, net.HardwareAddr(marg(unhex(a[4]))), net.HardwareAddr(marg(unhex(a[5]))))
 	return runReuse(reLayer{14,
 		func(cur, pl []byte) []byte { out, _ := packet.Ether(cur).SetPayload(pl); return out },
 		func(cur, pl []byte) ([]byte, error) { return packet.Ether(cur).AppendPayload(pl[:len(pl):len(pl)]) },
